@@ -171,7 +171,9 @@ namespace Spec
 
 /-- What the receiving end knows about the conversation, in protocol terms only. -/
 structure View where
-  /-- sequence number of the last segment accepted from the peer (`none`: nothing yet) -/
+  /-- sequence number of the last segment accepted from the peer (a `Nat`; before anything has been
+  accepted it is 255 at a responder, so that 0 is expected next, and 0 at an initiator: the handshake
+  response is the peer's segment number 0) -/
   lastSeq : Nat
   /-- negotiated window -/
   window : Nat
@@ -219,8 +221,8 @@ def badFlags (v : View) (h : Hdr) (payload : List Nat) : Bool :=
 def badLength (v : View) (h : Hdr) (payload : List Nat) : Bool :=
   -- a beginning segment inside a message
   (h.beg && v.remaining > 0)
-  -- data outside a message
-  || (!h.beg && v.remaining == 0 && payload.length > 0)
+  -- a continue / ending segment outside a message (with or without data)
+  || (!h.beg && !isAckOnly h && v.remaining == 0)
   -- more data than announced
   || (expected v h < payload.length)
   -- ending segment before the announced length is reached
